@@ -1,5 +1,6 @@
 mod adict;
 mod cli;
+mod cli_corpus;
 mod connrec;
 mod image;
 mod parsecases;
@@ -61,6 +62,7 @@ fn main() {
         "record-mecab" => trainer_cases::record_mecab(&a),
         "cli-pipeline" => cli::pipeline(&a),
         "cli-histories" => cli::histories(&a),
+        "cli-corpus" => cli_corpus::run(&a),
         "record-dict" => dictops::record(&a),
         "replay-dict" => dictops::replay(&a),
         _ => {
